@@ -68,21 +68,26 @@ structure Cfg where
   skipUnknown : Bool
   /-- `non_matching_keys = {}` after the `FakeDict` is built -/
   resetNonMatching : Bool
+  /-- `param_dict` also holds the `*args` / `**kwargs` parameters (the source before the repair
+  `if not param.star_count: param_dict[param.name.value] = param`) -/
+  starNamesInParamDict : Bool
 deriving DecidableEq, Repr
 
 /-- the source as validated (translator/pinned.json) -/
 def cfgRef : Cfg :=
   { pushBack := true, tupleStarCount := 1, dictStarCount := 2, skipUnknown := true,
-    resetNonMatching := true }
+    resetNonMatching := true, starNamesInParamDict := false }
 
 /-! ## jedi -/
 
 /-- the iterator: remaining `(key, argument)` pairs (pushed-back items in front) -/
 abbrev It := List (Option Name × Arg)
 
-/-- `key in param_dict` (`param_dict[param.name.value] = param` for every param; only membership
-and the name of `param_dict[key]`, which is `key`, are used) -/
-def inParamDict (ps : List Param) (k : Name) : Bool := ps.any (·.name == k)
+/-- `key in param_dict` (`if not param.star_count: param_dict[param.name.value] = param` for
+every param - `starNames`: without that `if`, the source before the repair; only membership and
+the name of `param_dict[key]`, which is `key`, are used) -/
+def inParamDict (starNames : Bool) (ps : List Param) (k : Name) : Bool :=
+  ps.any fun p => p.name == k && (starNames || p.kind.starCount == 0)
 
 /-- `d[k] = v` on an insertion-ordered dict -/
 def dictSet (d : List (Name × Arg)) (k : Name) (v : Arg) : List (Name × Arg) :=
@@ -102,9 +107,9 @@ structure St where
 deriving DecidableEq, Repr
 
 /-- body of `while key is not None:` up to (not including) the trailing `next` -/
-def keyStep (ps : List Param) (s : St) (key : Name) (argument : Arg) : St :=
+def keyStep (sn : Bool) (ps : List Param) (s : St) (key : Name) (argument : Arg) : St :=
   -- keys_only = True (first statement of the body, written into every branch)
-  if !inParamDict ps key then                                             -- except KeyError
+  if !inParamDict sn ps key then                                             -- except KeyError
     { s with keysOnly := true, nonMatching := dictSet s.nonMatching key argument }
   else if (s.keysUsed.lookup key).isSome then
     { s with keysOnly := true, hadMulti := true, issues := s.issues ++ [Issue.multipleValues key] }
@@ -114,14 +119,15 @@ def keyStep (ps : List Param) (s : St) (key : Name) (argument : Arg) : St :=
 /-- `while key is not None: ...; key, argument = next(var_arg_iterator, (None, None))`.
 `cur` is the current `(key, argument)`; `none` stands for `(None, None)`.  Returns the final
 `argument` (`None` or a positional argument), the iterator and the locals. -/
-def whileKeys (ps : List Param) : Option (Option Name × Arg) → It → St → Option Arg × It × St
+def whileKeys (sn : Bool) (ps : List Param) :
+    Option (Option Name × Arg) → It → St → Option Arg × It × St
   | none, it, s => (none, it, s)
   | some (none, a), it, s => (some a, it, s)
   | some (some key, a), it, s =>
-    let s := keyStep ps s key a
+    let s := keyStep sn ps s key a
     match it with
     | [] => (none, [], s)
-    | x :: it' => whileKeys ps (some x) it' s
+    | x :: it' => whileKeys sn ps (some x) it' s
 
 /-- `for key, argument in var_arg_iterator:` of the `*args` branch: collect positional arguments
 until a key argument is found, which is pushed back (or, in a source without the `push_back`,
@@ -175,7 +181,7 @@ def stepJ (cfg : Cfg) (ps : List Param) (p : Param) (it : It) (s : St) : It × S
   -- key, argument = next(var_arg_iterator, (None, None))
   let (cur, it) := pop it
   -- while key is not None: ...
-  let (argument, it, s) := whileKeys ps cur it s
+  let (argument, it, s) := whileKeys cfg.starNamesInParamDict ps cur it s
   bodyJ cfg p argument it s
 
 /-- the `for param in funcdef.get_params()` loop -/
@@ -187,10 +193,11 @@ def loopJ (cfg : Cfg) (all : List Param) : List Param → It → St → It × St
 
 /-- the code after the loop (issues only; `set(param_dict) - set(keys_used)` taken in parameter
 order, one calling node) -/
-def epilogue (ps : List Param) (it : It) (s : St) : List Issue :=
+def epilogue (cfg : Cfg) (ps : List Param) (it : It) (s : St) : List Issue :=
   let few :=
     if s.keysOnly then
-      (ps.filter fun p => (s.keysUsed.lookup p.name).isNone &&
+      (ps.filter fun p => inParamDict cfg.starNamesInParamDict ps p.name &&
+          (s.keysUsed.lookup p.name).isNone &&
           !(!s.nonMatching.isEmpty || s.hadMulti || p.kind.starCount != 0 || p.hasDefault)).map
         fun _ => Issue.tooFew
     else []
@@ -203,7 +210,7 @@ def epilogue (ps : List Param) (it : It) (s : St) : List Issue :=
 /-- `get_executed_param_names_and_issues`: (result_params, issues) -/
 def bindJFull (cfg : Cfg) (ps : List Param) (args : It) : List (Name × Bound) × List Issue :=
   let (it, s) := loopJ cfg ps ps args {}
-  (s.result, epilogue ps it s)
+  (s.result, epilogue cfg ps it s)
 
 /-- `get_executed_param_names`: parameter name -> what it is bound to, in parameter order -/
 def bindJ (cfg : Cfg) (ps : List Param) (args : It) : List (Name × Bound) :=
